@@ -4,7 +4,7 @@ use proc_macro2::{Span, TokenStream};
 use quote::{format_ident, quote, ToTokens};
 use structmeta::{Flag, NameArgs, NameValue, Parse, StructMeta};
 use syn::{
-    parse::Parse, parse2, parse_quote, spanned::Spanned, token, Attribute, Data, DataEnum,
+    ext::IdentExt, parse::Parse, parse2, parse_quote, spanned::Spanned, token, Attribute, Data, DataEnum,
     DataStruct, DeriveInput, Error, Expr, ExprLit, Field, Fields, Ident, Index, ItemEnum,
     ItemStruct, Lit, Meta, Path, Result, Type, Variant,
 };
@@ -597,13 +597,18 @@ fn build_debug_expr(
             true => quote!(debug_struct),
             false => quote!(debug_tuple),
         };
-        expr.extend(quote!(f.#debug_x(::core::stringify!(#ident))));
+        // Names are printed without the `r#` prefix of raw identifiers.
+        let name = ident.unraw().to_string();
+        expr.extend(quote!(f.#debug_x(#name)));
         for field in fields {
             if !field.hattrs.is_debug_ignore() {
                 let e = to_expr(field);
-                let member = field.member();
+                let name = match &field.field.ident {
+                    Some(ident) => ident.unraw().to_string(),
+                    None => field.index.to_string(),
+                };
                 expr.extend(match is_named {
-                    true => quote! (.field(::core::stringify!(#member), #e)),
+                    true => quote! (.field(#name, #e)),
                     false => quote! (.field(#e)),
                 });
                 field.push_bounds_to(use_bounds, kind, wcb);
